@@ -64,7 +64,7 @@ PROPS = {
         'explanation': 'Mixed: the cost model and the structure are proved; minimality is bounded-only (Verus has no float theory; SMAWK\'s guarantee needs total monotonicity).',
     },
     'C04': {
-        'units': ['U1', 'U2', 'U3', 'U4', 'U5', 'U6', 'U8', 'U9', 'U10', 'U11', 'U12', 'U13', 'U14', 'U15'], 'level': 'other', 'kani': [K1, K1MIN],
+        'units': ['U1', 'U2', 'U3', 'U4', 'U5', 'U6', 'U8', 'U9', 'U10', 'U11', 'U12', 'U13', 'U14', 'U15', 'U16'], 'level': 'other', 'kani': [K1, K1MIN],
         'trusted': ['A1', 'A2', 'A3', 'A4', 'A5', 'A6', 'A7', 'A8', 'A9', 'A10', 'A11', 'A12', 'R15'],
         'proved_part': 'Verus: absence of panics (index/slice bounds incl. char boundaries in NonEmptyLines, arithmetic overflow, unwrap on None, callee preconditions) and '
                        'termination for wrap_first_fit, wrap_optimal_fit (Err only from the is_infinite test), skip_ansi_escape_sequence, display_width (A8), NonEmptyLines::next, '
@@ -128,7 +128,7 @@ PROPS = {
                        'depends on the external UAX #14 implementation and is checked by bounded exhaustive enumeration.',
     },
     'C12': {
-        'units': ['U6', 'U14', 'U15'], 'level': 'other', 'trusted': ['A3', 'A4', 'A9', 'A12', 'R15'],
+        'units': ['U6', 'U14', 'U15', 'U16'], 'level': 'other', 'trusted': ['A3', 'A4', 'A9', 'A12', 'R15'],
         'proved_part': 'Verus: break_words (at I = Vec) is lossless and the identity when no word is wider than the limit. split_words (U14, both closures after closure '
                        'conversion R16), for every word and every list of split points that is strictly increasing and made of char boundaries inside the word: the pieces are '
                        'word[p_(k-1)..p_k], they concatenate to the word, a piece followed by another gets "-" exactly when the text before the cut does not end in \'-\', the last '
@@ -136,9 +136,12 @@ PROPS = {
                        'word and limit: pieces are consecutive non-empty runs between fresh positions (never inside an escape sequence), cached width == display width, '
                        '<= limit unless the whole width comes from one character, maximal (the next piece starts with visible text that would not have fitted), inner pieces '
                        'without whitespace/penalty, the last one with the word\'s.',
-        'bounded_part': 'BEC: split_points of the hyphen splitter (== the statement\'s split points), and every clause again by execution on the real functions.',
-        'explanation': 'Mixed, almost entirely proved: dispatch, splitting and force-breaking are proved for all inputs (the closures via conversion R16) relative to the assumed '
-                       'shape of the split points and the std contracts of char_indices / slicing; only the hyphen splitter\'s own split points are bounded-only.',
+                       ' WordSplitter::split_points (U16): the hyphen splitter returns exactly the positions directly after each \'-\' with an alphanumeric character on both '
+                       'sides, increasing, char boundaries strictly inside the word (the shape U14 assumes); NoHyphenation returns none.',
+        'bounded_part': 'BEC: every clause again by execution on the real functions (incl. a custom hyphen-inserting splitter).',
+        'explanation': 'Proved for all inputs (level stays "other" only because the units are linked by restated contracts, not one monolithic proof): dispatch, split points of the '
+                       'built-in splitters, splitting and force-breaking (the closures via conversion R16), relative to the std contracts of char_indices / match_indices / slicing; '
+                       'custom splitters are opaque (their split points are assumed to be increasing char boundaries inside the word).',
     },
     'C13': {
         'units': ['U3', 'U15'], 'level': 'other', 'trusted': ['A2', 'A4', 'A8', 'A12', 'R16'],
